@@ -79,6 +79,7 @@ def run(an: Analysis, rep):
     rep.run(c08.r084, an, rep, rule="R03.4", nan_sign_matters=True)
     rep.run(r035, an, rep)
     rep.run(r03w, an, rep)
+    rep.run(r03f, an, rep)
     rep.run(r036, an, rep)
     rep.run(r037, an, rep)
     rep.run(r038, an, rep)
@@ -478,6 +479,40 @@ def r035(an, rep):
     rep.add("R03.5", f"{pf.qual}::two bytes per code unit", ok_step, loc(pf.module, rng or pf.node),
             "the parser visits offsets 0, 2, 4, ..." if ok_step else "the parser does not step through the bytecode two bytes at a time")
     # (that the package's own parser reassembles prefixes the same way is R02.8, shared below as R03.X)
+
+
+def r03f(an, rep, rule="R03.F2"):
+    """A Freevar operand is encoded as the position of its name in the sequence of free variables (plus the number of cells): the tuple handed to CodeType as
+    co_freevars must be that very sequence - re-ordered (sorted, reversed, de-duplicated) only at emit time, every LOAD_DEREF names another variable."""
+    import reference.contracts as C
+    from rules import c11
+    rep.rule(rule, "co_freevars is emitted in the order the Freevar operands were indexed in", 1)
+    for V in VERSIONS:
+        it, _ = an.interp("to_code", V)
+        calls = c11.codetype_calls(an, V)
+        if len(calls) != 1:
+            raise AnalysisError(f"expected exactly one live CodeType(...) call under {vname(V)}")
+        f, call = calls[0]
+        slots = C.CODE_SLOTS[V]
+        slot = call.args[slots.index("freevars")]
+        sv = it.value_at(slot)
+        # the sequence the operand encoder indexes: receiver of `.index(<x>.freevar)`
+        idx = None
+        for g in an.closure("to_code", V):
+            for c in ast.walk(g.node):
+                if isinstance(c, ast.Call) and isinstance(c.func, ast.Attribute) and c.func.attr == "index" and c.args and isinstance(c.args[0], ast.Attribute) and c.args[0].attr == "freevar":
+                    idx = (g, c)
+        if idx is None:
+            raise AnalysisError("how a Freevar operand is turned into an index (`<freevars>.index(arg.freevar)`) is not recognised")
+        g, c = idx
+        iv = it.value_at(c.func.value)
+        same = bool(sv) and set(sv) == set(iv)
+        rebuilt = [a for a in sv if a[0] == "obj"]
+        rep.add(rule, f"{f.qual}::co_freevars is the sequence the operands index", same, loc(f.module, slot),
+                f"`{norm_src(slot)}` and the receiver of `{norm_src(c)[:40]}` are the same value" if same else
+                f"CodeType gets `{norm_src(slot)}` as co_freevars, the operands were computed with `{norm_src(c)[:50]}` over another sequence" +
+                (" (the slot is rebuilt - sorted / filtered - when the code object is made)" if rebuilt else "") +
+                ": for data whose freevars are not already in that order (hand-built `freevars=('y', 'x')`) every LOAD_DEREF / LOAD_CLOSURE names the other variable", config=vname(V))
 
 
 def r03w(an, rep, rule="R03.5"):
